@@ -63,7 +63,7 @@ Proof. intros Hr Hh. unfold s_replace. destruct nee; auto. apply B_repl_aux; aut
 
 Lemma B_trim chars l : B l -> B (s_trim chars l).
 Proof.
-  intros H. unfold s_trim. apply B_rev.
+  intros H. unfold s_trim. rewrite !frev_rev. apply B_rev.
   eapply B_incl; [intros x; apply dropwhile_incl|]. apply B_rev.
   eapply B_incl; [intros x; apply dropwhile_incl|]. exact H.
 Qed.
